@@ -628,6 +628,41 @@ fn compile_run_k(_case: &Value, inputs: &Value) -> Value {
     json!({"compiled": tree_to_json(&a, prog), "result": result})
 }
 
+// the library entry point (dialect detection included), then the emitted program run by clvmr on the given arguments
+fn compile_text_k(_case: &Value, inputs: &Value) -> Value {
+    use chialisp::classic::clvm_tools::clvmc::compile_clvm_text_maybe_opt;
+    use chialisp::classic::clvm_tools::stages::stage_0::TRunProgram;
+    use chialisp::compiler::compiler::DefaultCompilerOpts;
+    use chialisp::compiler::comptypes::CompilerOpts;
+    use std::collections::HashMap;
+    let mut a = Allocator::new();
+    let opts: Rc<dyn CompilerOpts> = Rc::new(DefaultCompilerOpts::new("*t*"));
+    let mut syms = HashMap::new();
+    let src = inputs["source"].as_str().unwrap();
+    let do_opt = inputs["optimize"].as_bool().unwrap_or(false);
+    let prog = match compile_clvm_text_maybe_opt(&mut a, do_opt, opts, &mut syms, src, "*t*", true) {
+        Ok(p) => p,
+        Err(e) => return json!({"compile_err": format!("{:?}", e)}),
+    };
+    let compiled = tree_to_json(&a, prog);
+    let mut symv: Vec<(String, String)> = syms.into_iter().collect();
+    symv.sort();
+    if inputs.get("args").is_none() || inputs["args"].is_null() {
+        return json!({"compiled": compiled, "symbols": symv});
+    }
+    let args = json_to_tree(&mut a, &inputs["args"]);
+    let runner = DefaultProgramRunner::new();
+    let result = match runner.run_program(&mut a, prog, args, None) {
+        Ok(r) => json!({"ok": tree_to_json(&a, r.1)}),
+        Err(_) => json!({"err": true}),
+    };
+    let matches = match inputs.get("expect") {
+        Some(e) if !e.is_null() => json!(result.get("ok") == Some(e)),
+        _ => Value::Null,
+    };
+    json!({"compiled": compiled, "symbols": symv, "result": result, "matches_expect": matches})
+}
+
 // classic compiler (no dialect sigil) through the library entry point, then run
 fn classic_compile_run_k(_case: &Value, inputs: &Value) -> Value {
     use chialisp::classic::clvm_tools::clvmc::compile_clvm_text;
@@ -790,6 +825,7 @@ pub fn dispatch(kernel: &str, case: &Value, inputs: &Value) -> Value {
         "classic_compile_run" => classic_compile_run_k(case, inputs),
         "name_lookup" => compile_run_k(case, inputs),
         "compile_run" => compile_run_k(case, inputs),
+        "compile_text" => compile_text_k(case, inputs),
         "read_new_file" => read_new_file_k(case, inputs),
         "atomic_write" => atomic_write_k(case, inputs),
         "intmode" => intmode_k(case, inputs),
